@@ -247,7 +247,8 @@ TgtInit == [blobs |-> {}, mans |-> {}, tag |-> "", dk |-> [cfg |-> "", layers |-
 Init == /\ sid \in Ids
         /\ arch = <<>> /\ rest = sc.entries
         /\ pos = 1 /\ pass = 0 /\ phase = "init"
-        /\ imp = ImpInit /\ tgt = TgtInit /\ err = ""
+        /\ imp = ImpInit /\ err = ""
+        /\ tgt = [TgtInit EXCEPT !.blobs = sc.preblobs, !.mans = sc.premans]      \* what the target holds before
 
 \* ImageImport up to the first seek
 Begin == /\ phase = "init"
